@@ -59,7 +59,8 @@ class SourceFile(object):
 
     @staticmethod
     def write_binary_contents(filename, buffer):
+        contents = bytearray(buffer)
         with open(filename, "wb") as outfile:
-            outfile.write(bytearray(buffer))
+            outfile.write(contents)
 
 # E N D   O F   F I L E #######################################################
